@@ -4,6 +4,7 @@ import json, os
 R='/verif'
 s=open(R+'/DESIGN.md').read()
 marker="### 8.6 My own mutants (mutants/LIST, run by mutants/selftest.sh)"
+tail=s[s.index("### 8.8 "):] if "### 8.8 " in s else ""
 s=s[:s.index(marker)]
 rows=[]
 for l in open(R+'/mutants/LIST'):
@@ -70,5 +71,5 @@ Lessons that generalised beyond the individual patch (all now in the quick tier)
 * **Numeric domain.** Matrices whose sums are exact in float64 but not in float32; gap scores of -Inf and
   -MaxFloat64; whole-number distances at the int32/int64/2^53 boundaries; mirrored scores one ulp apart.
 '''
-open(R+'/DESIGN.md','w').write(s+out)
+open(R+'/DESIGN.md','w').write(s+out+('\n\n'+tail if tail else ''))
 print("DESIGN.md tables regenerated: %d mutants, %d seeded changes (%d missed at arrival)"%(len(rows),len(metas),missed))
